@@ -27,6 +27,13 @@ def run_vsim(ctx, idx, c, timeout=300):
                                  "stepbins": 0, "order": "none", "msc": False, "field": False}) + "\n")
             fh.write(json.dumps({"e": "Ranks", "zeroE": 0, "zeroT": 0, "zeroL": 0}) + "\n")
             fh.write(json.dumps({"e": "Abort", "what": "vsim timed out after %ds" % timeout}) + "\n")
+    elif r.returncode < 0:
+        # the code under test crashed the harness (signal): an observed event the spec never enables
+        with open(out, "w") as fh:
+            fh.write(json.dumps({"e": "Config", "nslots": 1, "initcap": 1, "seccap": 99, "parts": [], "cbs": [],
+                                 "stepbins": 0, "order": "none", "msc": False, "field": False}) + "\n")
+            fh.write(json.dumps({"e": "Ranks", "zeroE": 0, "zeroT": 0, "zeroL": 0}) + "\n")
+            fh.write(json.dumps({"e": "Abort", "what": "vsim %s died with signal %d" % (" ".join(cfg_args(c)), -r.returncode)}) + "\n")
     elif r.returncode != 0 or not os.path.exists(out):
         raise vlib.Broken("vsim %s failed (exit %d): %s" % (cfg_args(c), r.returncode, r.stderr[-2000:]))
     return out
@@ -260,7 +267,13 @@ def replay(ctx, cfgs, nsim, prefixes, depth=60, per_cfg=150):
         out = ctx.path("replay%04d.ndjson" % i)
         rr = vlib.run_harness("vsim", [out, "script=" + paths[i], "dets=%d" % (i % 4), "diag=1", "seed=%d" % (ctx.seed + i),
                                        "maxsteps=200"], timeout=120, check=False)
-        if rr.returncode != 0 or not os.path.exists(out):
+        if rr.returncode < 0 or rr.returncode == 124:
+            with open(out, "w") as fh:
+                fh.write(json.dumps({"e": "Config", "nslots": 1, "initcap": 1, "seccap": 99, "parts": [], "cbs": [],
+                                     "stepbins": 0, "order": "none", "msc": False, "field": False}) + "\n")
+                fh.write(json.dumps({"e": "Ranks", "zeroE": 0, "zeroT": 0, "zeroL": 0}) + "\n")
+                fh.write(json.dumps({"e": "Abort", "what": "vsim script=%s died (exit %d)" % (paths[i], rr.returncode)}) + "\n")
+        elif rr.returncode != 0 or not os.path.exists(out):
             raise vlib.Broken("vsim scripted failed: %s" % rr.stderr[-1500:])
         return out
     with cf.ThreadPoolExecutor(max_workers=8) as ex:
